@@ -88,7 +88,7 @@ impl Check for ArpResolution {
         "C06"
     }
     fn rule(&self) -> String {
-        "generated: one network (latency 0..50 ms) with 2..6 machines, each claiming 1..3 distinct addresses, optional subnet information per local address (mask 0..=32, default gateway claimed by some machine or by nobody), 1..8 resolver calls (machine, local address, target among claimed addresses incl. the resolver's own, unclaimed addresses and off-subnet addresses; start time 0..3 s with many coinciding), and a drop plan over ARP frames (none / the first k requests / a random subset of requests and replies); oracle: with target' = gateway when the reference subnet arithmetic puts the target off-subnet: Ok(mac) only if target' is claimed and mac is the MAC of the claiming machine's tap; if some request of this resolver's budget reached the owner and the owner's reply to it reached the resolver, the result must be Ok; an unclaimed target' gives Err no later than start + RESEND_TRIES*RESEND_DELAY (constants read from the code) and, for the first resolver of that target on its machine, not before one RESEND_DELAY; resolvers of one machine whose calls overlap in time and have the same target' return equal results; every call returns. non-trivial: an ARP frame was dropped while success was still required, or the gateway was substituted, or the target is unclaimed. distinct: hash of decoded configuration".into()
+        "generated: one network (latency 0..50 ms) with 2..6 machines, each claiming 1..3 distinct addresses, optional subnet information per local address (mask 0..=32, default gateway claimed by some machine or by nobody), 1..8 resolver calls (machine, local address, target among claimed addresses incl. the resolver's own, unclaimed addresses and off-subnet addresses; start time 0..3 s with many coinciding), and a drop plan over ARP frames (none / the first k requests / a random subset of requests and replies); oracle: with target' = gateway when the reference subnet arithmetic puts the target off-subnet: Ok(mac) only if target' is claimed and mac is the MAC of the claiming machine's tap; if some request of this resolver's budget reached the owner and the owner's reply to it reached the resolver, the result must be Ok; an unclaimed target' gives Err no later than start + RESEND_TRIES*RESEND_DELAY (constants read from the code) and, for the first resolver of that target on its machine, not before that budget is spent; resolvers of one machine whose calls overlap in time and have the same target' return equal results; every call returns. non-trivial: an ARP frame was dropped while success was still required, or the gateway was substituted, or the target is unclaimed. distinct: hash of decoded configuration".into()
     }
     fn assumptions(&self) -> Vec<String> {
         vec!["one network: multi-homed resolvers are outside the statement".into(), "claimed addresses are pairwise distinct".into()]
@@ -266,7 +266,8 @@ impl Check for ArpResolution {
                         tj == t && res.iter().find(|x| x.id == j).map(|x| x.start <= r.start).unwrap_or(false)
                     });
                     if !earlier {
-                        ensure!(elapsed >= Arp::RESEND_DELAY, "bounded_retry", "gave_up_early", "call {id}: gave up after {:?}, before one RESEND_DELAY ({:?}) had passed", elapsed, Arp::RESEND_DELAY);
+                        // nobody answers: the whole retry budget must have been spent before giving up
+                        ensure!(elapsed + Duration::from_millis(1) >= budget, "bounded_retry", "gave_up_early", "call {id}: gave up after {:?}, before the retry budget RESEND_TRIES*RESEND_DELAY = {:?} was spent", elapsed, budget);
                     }
                 }
                 (Err(()), Some(o)) => {
